@@ -3,7 +3,7 @@
 //! Zinc Date, Time, and DateTime scalar decoding
 
 use super::super::scanner::Scanner;
-use crate::haystack::timezone::make_date_time_with_tz;
+use crate::haystack::timezone::{make_date_time_from_text, make_date_time_with_tz};
 use crate::haystack::val::date::Date;
 use crate::haystack::val::datetime::DateTime;
 use crate::haystack::val::time::Time;
@@ -115,7 +115,7 @@ pub(crate) fn parse_datetime<R: Read>(scanner: &mut Scanner<R>) -> Result<DateTi
                         .single()
                         .and_then(|dt| dt.with_nanosecond(time.nanosecond()))
                         .ok_or_else(|| String::from("Invalid date time."))
-                        .and_then(|fixed| make_date_time_with_tz(&fixed, &tz))
+                        .and_then(|fixed| make_date_time_from_text(&fixed, &tz))
                 },
             )
             .map(DateTime::from)
